@@ -155,6 +155,9 @@ func runC02(c *Ctx) {
 		R.Info("R02.1", m.d.Name+"#forms", m.d.ReceiveProbe.Pos(), m.d.Name, "accepted forms: "+strings.Join(fl, " "))
 	})
 	checkBudget(c)
+	for _, d := range Drivers(c.P) {
+		checkSendOrderAs(c, d, "R02.6", false)
+	}
 	checkSackRelative(c)
 	checkQuoteHelpers(c)
 }
